@@ -75,7 +75,7 @@ def strategy(draw, tier="quick"):
     for _ in range(draw(st.sampled_from([0, 0, 1, 2, 4]))):
         kind = draw(st.sampled_from(["replace", "replace", "replace_last", "delete", "insert", "upsert", "upsert"]))
         mods.append({"op": kind, "k": draw(st.integers(0, 20)), "off_ms": draw(st.one_of(st.integers(0, 20), st.integers(0, 100_000))), "dur_us": draw(st.sampled_from([0, 1000, 10**6, 5 * 10**6, 50 * 10**6]))})
-    return {"backend": draw(st.sampled_from(stores.BACKENDS)), "base": base, "events": evs, "mods": mods, "early_read": draw(st.booleans()), "first_read_limit1": draw(st.booleans()), "windows": wins, "limits": draw(st.lists(st.sampled_from([-7, -1, 0, 1, 2, 3, 100]), min_size=1, max_size=3, unique=True))}
+    return {"backend": draw(st.sampled_from(stores.BACKENDS)), "base": base, "events": evs, "mods": mods, "early_read": draw(st.booleans()), "pre": draw(st.integers(0, 2)), "first_read_limit1": draw(st.booleans()), "windows": wins, "limits": draw(st.lists(st.sampled_from([-7, -1, 0, 1, 2, 3, 100]), min_size=1, max_size=3, unique=True))}
 
 
 def known_key(case, v):
@@ -104,6 +104,8 @@ def run_case(case):
     nevals = 0
     with stores.store(be) as ds:
         with sut(f"{be}: setup"):
+            for k in range(case.get("pre", 0)):  # the bucket's row id differs from store to store
+                stores.create_bucket(ds, f"earlier{k}")
             b = stores.create_bucket(ds, "b")
             for i, e in enumerate(case["events"]):
                 r = b.insert(stores.mk_event(Event, {"us": base + e["off_ms"] * 1000, "off": 840 if base < 0 else 0, "dur_us": e["dur_us"], "data": {"i": i}}))
